@@ -1,1 +1,223 @@
-/-! C18 — property theorems (placeholder until the model exists). -/
+import EupsModel.Lemmas.Manifest
+/-! C18 — distribution manifests and tag lists round-trip and keep install order; remap.  Property theorems only
+(model: `Model/Manifest.lean`, helper lemmas: `Lemmas/Manifest.lean`).
+
+Reading.  A *word* (`Tok`) is a non-empty string without white space in Python's sense.  The round trip is claimed
+for entries whose product and version are words (the product not starting with `#`), whose flavor, table file and
+directory are missing or words, and whose distribution id is missing or a word other than the two reserved words of
+the format (`None`, `search`) — `DepOk`.  A missing table file or directory is written `none` and read back as the
+text `none`; a missing flavor is written as the `flavor=` argument or the native flavor (`roundDep`). -/
+namespace EupsModel.C18
+open EupsModel EupsModel.Manifest
+
+theorem tok_unknown : Tok sUNKNOWN := ⟨by decide, by decide⟩
+theorem tok_generic : Tok sGeneric := ⟨by decide, by decide⟩
+
+theorem manHeader_chars (m : Manifest) (hprod : ∀ s, m.product = some s → Tok s)
+    (hver : ∀ s, m.version = some s → Tok s) : ∀ c ∈ manHeader m, c ≠ 10 ∧ c ≠ 13 := by
+  have hp : Tok (m.product.getD sUNKNOWN) := by
+    cases h : m.product with
+    | none => exact tok_unknown
+    | some s => exact hprod s h
+  have hv : Tok (m.version.getD sGeneric) := by
+    cases h : m.version with
+    | none => exact tok_generic
+    | some s => exact hver s h
+  intro c hc
+  simp only [manHeader, List.mem_append] at hc
+  rcases hc with (((((h | h) | h) | h) | h) | h) | h
+  · revert c; decide
+  · exact ⟨hp.no_nl c h, hp.no_cr c h⟩
+  · revert c; decide
+  · exact ⟨hv.no_nl c h, hv.no_cr c h⟩
+  · revert c; decide
+  · revert c; decide
+  · revert c; decide
+
+/-- **C18, manifests (core).**  For every dependency list — any length and order, mixed flavors, optional entries,
+missing table files, directories and distribution ids — whose written entries are `DepOk`, every `flavor=` argument,
+both values of `noOptional` and any comment block: the manifest that `Manifest.write` produces is read back by
+`Manifest.read` as the written entries, in the same order, each with the same product, version, table file,
+directory and distribution id, and with the flavor it was written with. -/
+theorem C18_manifest_roundtrip (o : WriteOpts) (comments : List Str) (m : Manifest) (recurse : Bool)
+    (hn : Tok o.native) (ho : OptTok o.flavor)
+    (hprod : ∀ s, m.product = some s → Tok s) (hver : ∀ s, m.version = some s → Tok s)
+    (hc : ∀ l ∈ comments, isBlankOrComment l = true ∧ ∀ c ∈ l, c ≠ 10 ∧ c ≠ 13)
+    (hd : ∀ p ∈ written o m, DepOk p) :
+    read false recurse (write o comments m) =
+      .ok { product := some (m.product.getD sUNKNOWN), version := some (m.version.getD sGeneric),
+            deps := (written o m).map (roundDep o recurse) } := by
+  have hp : Tok (m.product.getD sUNKNOWN) := by
+    cases h : m.product with
+    | none => exact tok_unknown
+    | some s => exact hprod s h
+  have hv : Tok (m.version.getD sGeneric) := by
+    cases h : m.version with
+    | none => exact tok_generic
+    | some s => exact hver s h
+  have hchars : ∀ l ∈ writeLines o comments m, ∀ c ∈ l, c ≠ 10 ∧ c ≠ 13 := by
+    intro l hl
+    simp only [writeLines, List.mem_cons, List.mem_append, List.mem_map] at hl
+    rcases hl with (rfl | hl) | ⟨p, hp', rfl⟩
+    · exact manHeader_chars m hprod hver
+    · exact (hc l hl).2
+    · exact entryLine_no_nl o p hn ho (hd p hp')
+  unfold EupsModel.Manifest.read EupsModel.Manifest.write
+  rw [lines_univ_unlines _ (fun l hl c hcl => (hchars l hl c hcl).1) (fun l hl c hcl => (hchars l hl c hcl).2)]
+  have hh : parseManHeader (manHeader m) = some (m.product.getD sUNKNOWN, m.version.getD sGeneric) := by
+    simpa [manHeader] using parseManHeader_manHeader _ _ hp hv
+  have he : parseEntries false recurse (comments ++ (written o m).map (entryLine o)) =
+      .ok ((written o m).map (roundDep o recurse)) := by
+    rw [parseEntries_comments recurse comments _ (fun l hl => (hc l hl).1),
+      parseEntries_entries o recurse (written o m) hn ho hd]
+  exact readLines_cons false recurse _ _ _ _ _ hh he
+
+/-- the products come back in install order -/
+theorem C18_manifest_same_order (o : WriteOpts) (comments : List Str) (m : Manifest) (recurse : Bool)
+    (hn : Tok o.native) (ho : OptTok o.flavor)
+    (hprod : ∀ s, m.product = some s → Tok s) (hver : ∀ s, m.version = some s → Tok s)
+    (hc : ∀ l ∈ comments, isBlankOrComment l = true ∧ ∀ c ∈ l, c ≠ 10 ∧ c ≠ 13)
+    (hd : ∀ p ∈ written o m, DepOk p) :
+    ∃ m', read false recurse (write o comments m) = .ok m' ∧
+      m'.deps.map (fun p => (p.product, p.version, p.distId)) =
+        (written o m).map (fun p => (p.product, p.version, p.distId)) := by
+  refine ⟨_, C18_manifest_roundtrip o comments m recurse hn ho hprod hver hc hd, ?_⟩
+  simp [List.map_map, Function.comp_def, roundDep]
+
+/-- with `noOptional=False` (as `Distrib.writeManifest` calls it) every entry is written -/
+theorem C18_manifest_all_written (o : WriteOpts) (m : Manifest) (h : o.noOptional = false) : written o m = m.deps := by
+  simp [written, h]
+
+/-- an entry with a flavor of its own keeps it when no `flavor=` is given (the repaired D13) -/
+theorem C18_manifest_keeps_flavor (o : WriteOpts) (p : Dep) (f : Str) (ho : falsy o.flavor = true)
+    (hf : p.flavor = some f) (hne : f ≠ []) : flavorCol o p = f := by
+  have : falsy (some f) = false := by
+    cases f with
+    | nil => exact absurd rfl hne
+    | cons _ _ => rfl
+  simp [flavorCol, ho, hf, this]
+
+/-- Non-vacuity: three entries of three flavors, one without flavor, table, directory and distribution id. -/
+example :
+    let d1 : Dep := { product := Str.ofString "python", version := Str.ofString "2.6.2", flavor := some (Str.ofString "DarwinX86"),
+                      tablefile := some (Str.ofString "python.table"), instDir := some (Str.ofString "DarwinX86/python/2.6.2"),
+                      distId := some (Str.ofString "python-2.6.2.tar.gz") }
+    let d2 : Dep := { product := Str.ofString "afw", version := Str.ofString "1.0", flavor := none, tablefile := none, instDir := none,
+                      distId := none, isOpt := true }
+    let m : Manifest := { product := some (Str.ofString "top"), version := none, deps := [d1, d2] }
+    let o : WriteOpts := { noOptional := false, native := Str.ofString "Linux" }
+    (read false false (write o [Str.ofString "# pkg flavor"] m)).toOption =
+      some { product := some (Str.ofString "top"), version := some (Str.ofString "generic"),
+             deps := [{ d1 with }, { product := Str.ofString "afw", version := Str.ofString "1.0", flavor := some (Str.ofString "Linux"),
+                                     tablefile := some (Str.ofString "none"), instDir := some (Str.ofString "none"), distId := none }] } := by
+  decide
+
+/-- **D13, pinned tree (negation witnesses).**  The pinned writer (`if not flavor: p.flavor = flavor`) writes the
+native flavor for an entry that has its own ... -/
+theorem C18_flavor_pinned_witness :
+    let d : Dep := { product := [112], version := [49], flavor := some (Str.ofString "DarwinX86"), tablefile := none,
+                     instDir := none, distId := some [120] }
+    let o : WriteOpts := { native := Str.ofString "Linux" }
+    flavorColPinned o d = Str.ofString "Linux" ∧ flavorCol o d = Str.ofString "DarwinX86" ∧
+      flavorColPinned { o with flavor := some (Str.ofString "Linux64") } d = Str.ofString "DarwinX86" ∧
+      flavorCol { o with flavor := some (Str.ofString "Linux64") } d = Str.ofString "Linux64" := by
+  decide
+
+/-- ... and the pinned `Dependency.__init__` (`distId == None`) keeps the text `None` as a distribution id. -/
+theorem C18_distid_pinned_witness :
+    let d : Dep := { product := [112], version := [49], flavor := none, tablefile := none, instDir := none, distId := none }
+    let m : Manifest := { product := some [116], version := some [49], deps := [d] }
+    let o : WriteOpts := { native := Str.ofString "Linux" }
+    (read true false (write o [] m)).toOption.map (fun m' => m'.deps.map (·.distId)) = some [some (Str.ofString "None")] ∧
+      (read false false (write o [] m)).toOption.map (fun m' => m'.deps.map (·.distId)) = some [none] := by
+  decide
+
+/-! ## tag lists -/
+
+/-- **C18, tag lists: same entries, in sorted order.**  A tagged-release list written by `TaggedProductList.write`
+(with or without `flavor=`) and read by a reader of flavor `F` yields, for the products in *sorted* order, exactly
+the entries whose flavor is `F` or `generic` (which stands for `F`), each with its version and extra words. -/
+theorem C18_taglist_roundtrip (t : TagList) (fa : Option Str) (F : Str) (comments : List Str)
+    (htag : ∀ c ∈ t.tag, c ≠ 10 ∧ c ≠ 13)
+    (hc : ∀ l ∈ comments, isBlankOrComment l = true ∧ ∀ c ∈ l, c ≠ 10 ∧ c ≠ 13)
+    (hnd : t.products.Nodup)
+    (hok : ∀ p ∈ t.products, TagEntryOk fa p ((assocGet t.info p).getD [])) :
+    ∃ r, (TagList.empty t.tag (some F)).read (t.write fa comments) = .ok r ∧
+      r.getProducts = (sortStrs t.products).filterMap (fun p => keepEntry fa F p ((assocGet t.info p).getD [])) := by
+  have hperm := sortStrs_perm t.products
+  have hmem : ∀ p ∈ sortStrs t.products, p ∈ t.products := fun p hp => hperm.mem_iff.mp hp
+  have hchars : ∀ l ∈ t.writeLines fa comments, ∀ c ∈ l, c ≠ 10 ∧ c ≠ 13 := by
+    intro l hl
+    simp only [TagList.writeLines, List.mem_cons, List.mem_append, List.mem_map] at hl
+    rcases hl with (rfl | hl) | ⟨p, hp, rfl⟩
+    · intro c hcc
+      simp only [tagHeader, List.mem_append] at hcc
+      rcases hcc with ((((h | h) | h) | h) | h) | h
+      · revert c; decide
+      · exact htag c h
+      · revert c; decide
+      · revert c; decide
+      · revert c; decide
+      · revert c; decide
+    · exact (hc l hl).2
+    · exact tagLine_no_nl fa p _ (hok p (hmem p hp))
+  have hl : lines (univNewlines (t.write fa comments)) = t.writeLines fa comments := by
+    unfold TagList.write
+    exact lines_univ_unlines _ (fun l hl c hcl => (hchars l hl c hcl).1) (fun l hl c hcl => (hchars l hl c hcl).2)
+  have hinv : TagInv (TagList.empty t.tag (some F)) F := ⟨rfl, rfl, List.nodup_nil⟩
+  obtain ⟨r, hr, hg⟩ := tagEntries_lines fa F (fun p => (assocGet t.info p).getD []) (sortStrs t.products)
+    (TagList.empty t.tag (some F)) hinv (hperm.nodup_iff.mpr hnd) (fun p _ => by simp [TagList.empty])
+    (fun p hp => hok p (hmem p hp))
+  refine ⟨r, ?_, ?_⟩
+  · have hread := tagRead_of_lines (TagList.empty t.tag (some F)) (t.write fa comments) (tagHeader t.tag)
+      (comments ++ (sortStrs t.products).map fun p => tagLine fa p ((assocGet t.info p).getD []))
+      (by rw [hl]; rfl) (parseTagHeader_tagHeader t.tag)
+    rw [hread, tagEntries_comments _ _ _ (fun l hl => (hc l hl).1)]
+    exact hr
+  · rw [hg]; simp [TagList.getProducts, TagList.empty]
+
+/-- the same *set* of entries as the list held for that reader (in some order) -/
+theorem C18_taglist_same_entries (t : TagList) (fa : Option Str) (F : Str) (comments : List Str)
+    (htag : ∀ c ∈ t.tag, c ≠ 10 ∧ c ≠ 13)
+    (hc : ∀ l ∈ comments, isBlankOrComment l = true ∧ ∀ c ∈ l, c ≠ 10 ∧ c ≠ 13)
+    (hnd : t.products.Nodup)
+    (hok : ∀ p ∈ t.products, TagEntryOk fa p ((assocGet t.info p).getD [])) :
+    ∃ r, (TagList.empty t.tag (some F)).read (t.write fa comments) = .ok r ∧
+      r.getProducts.Perm (t.products.filterMap (fun p => keepEntry fa F p ((assocGet t.info p).getD []))) := by
+  obtain ⟨r, hr, hg⟩ := C18_taglist_roundtrip t fa F comments htag hc hnd hok
+  exact ⟨r, hr, hg ▸ (sortStrs_perm t.products).filterMap _⟩
+
+/-- **"same order", partial** — hypothesis: the products were added in sorted order. -/
+theorem C18_taglist_order_partial (t : TagList) (fa : Option Str) (F : Str) (comments : List Str)
+    (htag : ∀ c ∈ t.tag, c ≠ 10 ∧ c ≠ 13)
+    (hc : ∀ l ∈ comments, isBlankOrComment l = true ∧ ∀ c ∈ l, c ≠ 10 ∧ c ≠ 13)
+    (hnd : t.products.Nodup)
+    (hok : ∀ p ∈ t.products, TagEntryOk fa p ((assocGet t.info p).getD []))
+    (hsorted : SortedAdj t.products) :
+    ∃ r, (TagList.empty t.tag (some F)).read (t.write fa comments) = .ok r ∧
+      r.getProducts = t.products.filterMap (fun p => keepEntry fa F p ((assocGet t.info p).getD [])) := by
+  obtain ⟨r, hr, hg⟩ := C18_taglist_roundtrip t fa F comments htag hc hnd hok
+  exact ⟨r, hr, by rw [hg, sortStrs_sorted_id _ hsorted]⟩
+
+/-- Non-vacuity (sorted insertion, a `generic` entry, an entry of another flavor that the reader drops). -/
+example :
+    let t := (((TagList.empty (Str.ofString "current") (some (Str.ofString "Linux"))).addProduct (Str.ofString "afw")
+      (Str.ofString "1.0") none []).addProduct (Str.ofString "boost") (Str.ofString "2") (some (Str.ofString "generic"))
+      [Str.ofString "x"]).addProduct (Str.ofString "cfitsio") (Str.ofString "3") (some (Str.ofString "DarwinX86")) []
+    ((TagList.empty (Str.ofString "current") (some (Str.ofString "Linux"))).read (t.write none [])).toOption.map
+        TagList.getProducts =
+      some [[Str.ofString "afw", Str.ofString "Linux", Str.ofString "1.0"],
+            [Str.ofString "boost", Str.ofString "Linux", Str.ofString "2", Str.ofString "x"]] := by
+  decide
+
+/-- **D14 (negation witness): the unrestricted "same order" clause is false** — `python` added before `afw` comes
+back after it. -/
+theorem C18_taglist_order_witness :
+    let t := ((TagList.empty (Str.ofString "current") (some (Str.ofString "Linux"))).addProduct (Str.ofString "python")
+      (Str.ofString "2.6") none []).addProduct (Str.ofString "afw") (Str.ofString "1.0") none []
+    t.getProducts.map (·.head?) = [some (Str.ofString "python"), some (Str.ofString "afw")] ∧
+      ((TagList.empty (Str.ofString "current") (some (Str.ofString "Linux"))).read (t.write none [])).toOption.map
+        (fun r => r.getProducts.map (·.head?)) = some [some (Str.ofString "afw"), some (Str.ofString "python")] := by
+  decide
+
+end EupsModel.C18
